@@ -1897,7 +1897,7 @@ func (s *BgpServer) handleFSMMessage(peer *peer, e *fsmMsg) {
 			}
 		}
 
-		drainChannel(peer.fsm.outgoingCh.Out())
+		drainInfiniteChannel(peer.fsm.outgoingCh)
 
 		if nextState == bgp.BGP_FSM_ESTABLISHED {
 			conf := peer.fsm.pConf.ReadOnly()
